@@ -96,6 +96,15 @@ Section Inspect.
   Definition inspect := inspect_in table.
 End Inspect.
 
+(* the two reserved SSH file names of the property; they apply to exact base names *)
+Definition reserved_names : list bytes := [bs "authorized_keys"; bs "known_hosts"].
+Definition reserved_name (name : bytes) : bool :=
+  match name with [] => false | _ => existsb (bytes_eqb (basename name)) reserved_names end.
+
+(* every name pattern of the table is one of the reserved names, literally *)
+Definition only_reserved_patterns (t : list row) : bool :=
+  forallb (fun r => forallb (fun p => existsb (bytes_eqb p) reserved_names) (r_patterns r)) t.
+
 (* ---- well-formedness of the regenerated table (boolean; instance lemma by vm_compute) ---- *)
 Definition is_sig_row (r : row) : bool :=
   match r_patterns r, r_magics r, r_sniffer r with
